@@ -263,13 +263,18 @@ def run_gate(la, lb, na, idx_dur, ties=()):
         return {'apiVersion': 'kopf.dev/v1', 'kind': res.kind, 'metadata': {'name': name, 'namespace': 'ns', 'uid': f'{res.plural}-{name}',
                                                                               'resourceVersion': '1'}, 'spec': {}}
 
+    two_ns = vkopf.cell().get('two_ns', False)     # the indexed kind served in two namespaces (two watchers, two listings)
+
     async def fake_watch(*, settings, resource, namespace, operator_paused=None):
-        delay, names = (la, [f'a{i}' for i in range(na)]) if resource == RA else (lb, ['b0'])
+        if two_ns:
+            delay, names = (la, [f'a{i}' for i in range(na)]) if namespace == 'ns1' else (lb, ['b0'])
+        else:
+            delay, names = (la, [f'a{i}' for i in range(na)]) if resource == RA else (lb, ['b0'])
         if delay > 0:
             await asyncio.sleep(delay)
         for n in names:
             yield {'type': None, 'object': body(resource, n)}
-        log.append(('listed', loop.time(), resource.plural))
+        log.append(('listed', loop.time(), resource.plural, namespace))
         yield watching_mod.Bookmark.LISTED
         await asyncio.Event().wait()
 
@@ -289,7 +294,8 @@ def run_gate(la, lb, na, idx_dur, ties=()):
             from kopf._core.actions import lifecycles
             processor = functools.partial(processor, lifecycle=lifecycles.all_at_once)
             await orchestration.spawn_missing_watchers(ensemble=ensemble, settings=settings, processor=processor,
-                                                       indexed_resources={RA}, watched_resources=[RA, RB], watched_namespaces=[None])
+                                                       indexed_resources={RA}, watched_resources=[RA] if two_ns else [RA, RB],
+                                                       watched_namespaces=['ns1', 'ns2'] if two_ns else [None])
             await asyncio.sleep(la + lb + (na + 1) * idx_dur + 10)
             await cancel_all_others()
         finally:
@@ -314,15 +320,17 @@ def h_gate(la: int, lb: int, na: int, idx_dur: int, t0: bool, t1: bool) -> bool:
     listed_a = [e[1] for e in log if e[0] == 'listed' and e[2] == 'indexedthings']
     indexed = [e[1] for e in log if e[0] == 'indexed']
     handlers_ = [e for e in log if e[0] == 'handler']
-    if len(handlers_) != na + 1 or len(indexed) != na or not listed_a:
+    two_ns = vkopf.cell().get('two_ns', False)
+    total = na + 1 if two_ns else na          # objects of the indexed kind (in the two-namespace cell b0 is one of them)
+    if len(handlers_) != na + 1 or len(indexed) != total or not listed_a or (two_ns and len(listed_a) != 2):
         ok = False
-    ready = listed_a[0] if listed_a else 0
-    for t in indexed:
+    ready = 0
+    for t in listed_a + indexed:
         if t > ready:
             ready = t
     for (_, t, name, size) in handlers_:
-        # nothing starts before every indexed kind has been listed and each listed object indexed once
-        if t < ready or size != na:
+        # nothing starts before every indexed kind has been listed (in every served namespace) and each listed object indexed once
+        if t < ready or size != total:
             ok = False
     if lb < la:
         vkopf.witness('plain_kind_listed_first')
@@ -338,6 +346,8 @@ def obligations():
                   s2=[0, 1, 2, 3, 4])
     obs += split(Ob('h_gate', {}, timeout=900, path_timeout=300, twins=['plain_kind_listed_first']), na=[1, 2])
     obs += split(Ob('h_gate', {}, timeout=900, path_timeout=300, tiers=('thorough',)), na=[0])
+    obs += split(Ob('h_gate', {'two_ns': True}, timeout=900, path_timeout=300), na=[1])
+    obs += split(Ob('h_gate', {'two_ns': True}, timeout=900, path_timeout=300, tiers=('thorough',)), na=[0, 2])
     for (k0, k1, o1) in ((0, 3, True), (6, 4, False), (0, 5, True), (1, 2, True), (3, 0, False), (4, 6, True)):
         obs.append(Ob('h_index_rules', {'n': 2, 'errors': 'ignored', 'pin': {'k0': k0, 'k1': k1, 'o0': False, 'm0': True, 'o1': o1, 'del0': False}},
                       tiers=('quick',), timeout=900))
